@@ -290,6 +290,8 @@ class MarshalModels(TxModels):
         if kind is None:
             return None
         t = z3.simplify(idx.term)
+        if z3.is_string_value(t):
+            return None                      # a concrete key (pad['header'], marshallers['s']): the ordinary constant lookup
         keys = [k for k in obj.obj.keys() if isinstance(k, str) and len(k) == 1]
         if not I.ctx.branch(z3.Or([idx.term == sv(k) for k in keys])):
             I.raise_py(KeyError)
